@@ -343,12 +343,15 @@ func ruleBuildCleanup(w *World, r *Report, rule string) {
 			if rcv, k, ok := isCloseCall(info, c); ok && k == "provider" && objOf(info, rcv) == pObj {
 				gen = append(gen, "closed")
 			}
-			// handed to a private helper that closes it on every path (abortBuild(p, …))
+			// handed to a private helper that closes it on every path (abortBuild(p, …) or p.abortBuild(…))
 			if cal := callee(info, c); cal != nil && !cal.Exported() && w.Decls[cal] != nil {
 				for i, a := range c.Args {
 					if objOf(info, a) == pObj && helperMustCloseParam(w, w.Decls[cal], i, "provider") {
 						gen = append(gen, "closed")
 					}
+				}
+				if rcv, _, isM := methodCall(c); isM && objOf(info, rcv) == pObj && helperMustCloseParam(w, w.Decls[cal], -1, "provider") {
+					gen = append(gen, "closed")
 				}
 			}
 		}
@@ -599,10 +602,19 @@ func helperMustCloseParam(w *World, h *FuncInfo, idx int, kind string) bool {
 			params = append(params, info.Defs[nm])
 		}
 	}
-	if idx >= len(params) {
-		return false
+	var p types.Object
+	if idx < 0 {
+		// the receiver: p.abortBuild(phase, details, cause)
+		if h.Decl.Recv == nil || len(h.Decl.Recv.List[0].Names) != 1 {
+			return false
+		}
+		p = info.Defs[h.Decl.Recv.List[0].Names[0]]
+	} else {
+		if idx >= len(params) {
+			return false
+		}
+		p = params[idx]
 	}
-	p := params[idx]
 	fl := w.FlowOf(h)
 	sol := fl.Solve(Spec{Must: true, Node: func(n ast.Node, in Facts) (gen, kill []string) {
 		for _, c := range callsIn(n, false) {
